@@ -256,6 +256,12 @@ impl Path {
         self.cc().grant_anti_amplification();
     }
 
+    /// Verification hook (read-only): the path's anti-amplification budget.
+    #[cfg(gmquic_verif)]
+    pub fn verif_anti_amplifier(&self) -> &AntiAmplifier {
+        &self.anti_amplifier
+    }
+
     pub fn mtu(&self) -> u16 {
         self.pmtu.load(Ordering::Acquire)
     }
